@@ -161,7 +161,7 @@ Plan generate(uint64_t seed, const std::string& focus) {
         auto& c = bk.base_caps;
         bool many = focus == "C15" || focus == "C18" || r.chance(0.2);
         double p = many ? 0.5 : 0.1;
-        if (r.chance(focus == "C07" || focus == "C06" ? 0.9 : 0.3)) c.recv_max = (uint16_t)r.pick<int>({1, 1, 2, 2, 3, 5, 10, 65535});
+        if (r.chance(focus == "C07" || focus == "C06" ? 0.9 : (focus == "C01" && bk.dup_ack_p > 0) ? 0.7 : 0.3)) c.recv_max = (uint16_t)r.pick<int>({1, 1, 2, 2, 3, 5, 10, 65535});
         if (r.chance(p)) c.max_qos = (uint8_t)r.below(2);
         if (r.chance(p)) c.retain_avail = (uint8_t)r.below(2);
         if (r.chance(p)) c.max_packet = (uint32_t)r.pick<int>({40, 64, 100, 128, 129, 200, 16384, 70000});
@@ -240,6 +240,7 @@ Plan generate(uint64_t seed, const std::string& focus) {
             s.c = r.chance(focus == "C07" || focus == "C05" ? 0.5 : 0.2);
             s.s1 = "t/" + std::to_string(next_id);
             s.s2 = std::to_string(next_id) + ":" + filler(r, biased_len(r));
+            if (s.a > 0 && r.chance(bk.dup_ack_p > 0 ? 0.4 : 0.15)) s.d = (int)r.range(1, 3);      // chained from the completion handler
             s.props = gen_publish_props(r, true, forbid_ok ? (uint16_t)(alias_max + 1) : alias_max);
             if (forbid_ok && r.chance(0.2) && !find_prop(s.props, P_TOPIC_ALIAS)) s.props.push_back(P(P_TOPIC_ALIAS, (uint32_t)alias_max + 1));
             break;
